@@ -1,89 +1,150 @@
-/* Proof harness: copy_hfe (img_hfe.cc) for HFE v1 tracks (hfe3 == false): the bytes of a 256-byte side block go to the
- * track stream one for one, each with its bit order reversed (HFE stores the cell that comes first in time in bit 0;
- * the loop rebuilds each byte MSB-first-in, LSB-first-out).  C05: the cells the decoders see are the cells of the image. */
+/* Proof harness: copy_hfe (img_hfe.cc): the cells of one 256-byte side block of an HFE track go to the track stream, with
+ * the HFEv3 opcodes taken out.  C05: "... an HFE version 1 or version 3 file (... and for v3 any placement of
+ * NOP/SETINDEX/SETBITRATE/SKIPBITS opcodes between cells) ... yields exactly the same sectors": the cells the decoders
+ * see are the cells of the image, whatever opcodes lie between them and wherever a block boundary falls.
+ *
+ * The track is handed to copy_hfe one side block at a time, so the decoding state (the opcode still waiting for its
+ * operand, the partly assembled output byte) has to survive from one call to the next: the contract is stated over a state
+ * object (HfeCopyState) that the caller keeps for the whole track (harness/dfs_sideblocks.c checks that it does).
+ *
+ * Specification automaton (ghost tables filled by the harness for the block and the state on entry):
+ *   h_op[i]    opcode still waiting for its operand after the first i bytes of the block (h_op[0]: on entry)
+ *   h_bits[i]  number of cells gathered after the first i bytes, counted from the start of the output byte that was being
+ *              assembled on entry (h_bits[0] = cells already in it, 0..7)
+ *   a byte below F0 outside an operand position is DATA: its 8 cells follow, first-in-time first (bit 7 of the byte as
+ *   copy_hfe sees it, i.e. after read_all_sectors reversed the bit order of the file byte);
+ *   F0 NOP and F1 SETINDEX: nothing;  F2 SETBITRATE: nothing, the next byte is its operand and contributes nothing;
+ *   F3 SKIPBITS: nothing, the next byte is its operand n;  F4 RAND: the next byte contributes 8 cells (content not stated).
+ *   What the property does not define and the contract therefore takes from the code (listed as an assumption in the
+ *   evidence): the width contributed by a SKIPBITS operand -- 8-n cells for n < 8, none for n >= 8; no statement is made
+ *   about the CONTENT of those cells.  Bytes F5..FF in an opcode position are outside the property's alphabet (excluded). */
 #include "dfs_types.h"
 static void mon_read_block(struct DataAccess *obj, unsigned long lba) { (void)obj; (void)lba; }
 static void mon_read_result(struct DataAccess *obj, _Bool ok) { (void)obj; (void)ok; }
 #define BLOCK_MAX 256
+#include "HfeCopyState.inc"
 static byte h_block[BLOCK_MAX];
+static struct HfeCopyState h_state;
 static size_t g_k;                 /* ghost index of one input byte */
-static unsigned g_bit;             /* ghost bit number */
-static struct { size_t n; byte at_k; } DST;      /* the back_inserter: number of bytes appended, and the g_k-th of them */
-static void dest_push_back(byte b) { if (DST.n == g_k) DST.at_k = b; DST.n = DST.n + 1; }
-/* Specification automaton for the opcodes this contract covers (HFEv3: NOP F0 and SETINDEX F1 take no operand and emit
-   nothing; SETBITRATE F2 takes one operand byte and emits nothing; every other byte below F0 is track data).  h_cnt[i] =
-   bytes emitted by the first i input bytes, h_op[i] = opcode still waiting for its operand after them.  For an HFE v1
-   track (hfe3 false) every byte is data.  SKIPBITS / RAND / unassigned opcodes are excluded by the harness. */
-static size_t h_cnt[BLOCK_MAX + 1];
+static unsigned g_bit;             /* ghost cell number within it (0 = first in time = bit 7) */
+static unsigned g_c;               /* ghost index of one cell that was already gathered on entry */
+/* derived by the harness from the tables: where cell (g_k, g_bit) belongs in the output */
+static size_t g_d; static unsigned g_j; static _Bool g_isdata, g_cell;
+static int g_got0; static byte g_out0;
+/* the back_inserter: number of bytes appended by this call, the g_d-th of them and the first of them */
+static struct { size_t n; byte at_d; byte at_0; } DST;
+static void dest_push_back(byte b) { if (DST.n == g_d) DST.at_d = b; if (DST.n == 0) DST.at_0 = b; DST.n = DST.n + 1; }
+static size_t h_bits[BLOCK_MAX + 1];
 static byte h_op[BLOCK_MAX + 1];
 static void h_fill_tables(_Bool hfe3, size_t n)
 {
   unsigned i;
-  h_cnt[0] = 0; h_op[0] = 0;
   for (i = 0; i < BLOCK_MAX; ++i)
     {
       const byte b = h_block[i];
-      if (hfe3 && h_op[i] == 0) __CPROVER_assume(i >= n || b < 0xF3);
-      if (hfe3 && h_op[i] != 0) { h_op[i + 1] = 0; h_cnt[i + 1] = h_cnt[i]; }
-      else if (hfe3 && b >= 0xF0) { h_op[i + 1] = (b == 0xF2) ? 0xF2 : 0; h_cnt[i + 1] = h_cnt[i]; }
-      else { h_op[i + 1] = 0; h_cnt[i + 1] = h_cnt[i] + 1; }
+      if (hfe3 && h_op[i] == 0) __CPROVER_assume(i >= n || b <= 0xF4);
+      if (hfe3 && h_op[i] != 0)
+        {
+          h_op[i + 1] = 0;
+          h_bits[i + 1] = h_bits[i] + (h_op[i] == 0xF4 ? 8 : (h_op[i] == 0xF3 && b < 8) ? 8 - b : 0);
+        }
+      else if (hfe3 && b >= 0xF0) { h_op[i + 1] = (b >= 0xF2) ? b : 0; h_bits[i + 1] = h_bits[i]; }
+      else { h_op[i + 1] = 0; h_bits[i + 1] = h_bits[i] + 8; }
     }
 }
 #include "hfe_opcodes.inc"
 #include "is_hfe3_opcode.inc"
-/* ghost for the 8-step inner loop: what `out` is after j steps when no bit is skipped (set up by a rule just before it) */
-static byte h_out[9];
-#define STEP_(o, j) ((byte)(((o) >> 1) | ((in & (1 << (7 - (j)))) ? 0x80 : 0)))
-#define COPY_HFE_INNER_GHOST \
-  h_out[0] = out; h_out[1] = STEP_(h_out[0], 0); h_out[2] = STEP_(h_out[1], 1); h_out[3] = STEP_(h_out[2], 2); h_out[4] = STEP_(h_out[3], 3); \
-  h_out[5] = STEP_(h_out[4], 4); h_out[6] = STEP_(h_out[5], 5); h_out[7] = STEP_(h_out[6], 6); h_out[8] = STEP_(h_out[7], 7);
+#define OFF_ (__CPROVER_POINTER_OFFSET(begin))
+/* bit b of a byte that holds g cells so far: the j-th gathered cell sits at bit 8-g+j (cells enter at bit 7 and move down) */
+#define PARTIAL_BIT(o, g, j) (((o) >> (8 - (g) + (j))) & 1)
+/* "cell number 8 d + j of the output has value v": in the d-th appended byte once that exists, in the unfinished byte before */
+#define LOC_D(v) ((g_d < DST.n ==> (((DST.at_d >> g_j) & 1) == (v))) && (g_d == DST.n ==> (PARTIAL_BIT(out, got_bits, g_j) == (v))))
+#define LOC_0(v) ((DST.n >= 1 ==> (((DST.at_0 >> g_c) & 1) == (v))) && (DST.n == 0 ==> (PARTIAL_BIT(out, got_bits, g_c) == (v))))
+#define TOTAL_ (8 * DST.n + (size_t)got_bits)
+#define CARRIED_ ((int)g_c < g_got0)
+/* ghosts for the 8-step bit loop (set by an extraction rule just before it): bits to skip and cells gathered at its start */
+static int h_s0; static size_t h_G0;
+#define COPY_HFE_INNER_GHOST h_s0 = skipbits; h_G0 = TOTAL_;
+#define CUR_ (OFF_ - 1)            /* index of the byte `in` (begin was advanced when it was fetched) */
 #define COPY_HFE_INNER_CONTRACT \
-  __CPROVER_assigns(bitnum, out, got_bits, skipbits, g_diag) \
-  __CPROVER_loop_invariant(0 <= bitnum && bitnum <= 8 && skipbits == 0 && got_bits == bitnum && out == h_out[bitnum]) \
+  __CPROVER_assigns(bitnum, out, got_bits, skipbits, DST, g_diag) \
+  __CPROVER_loop_invariant(0 <= bitnum && bitnum <= 8 && 0 <= h_s0 && h_s0 < 8 && skipbits == (h_s0 > bitnum ? h_s0 - bitnum : 0)) \
+  __CPROVER_loop_invariant(0 <= got_bits && got_bits < 8 && DST.n <= OFF_ + 1 && TOTAL_ == h_G0 + (size_t)(bitnum > h_s0 ? bitnum - h_s0 : 0)) \
+  __CPROVER_loop_invariant((g_isdata && g_k < CUR_) ==> (8 * g_d + g_j < h_G0 && LOC_D(g_cell))) \
+  __CPROVER_loop_invariant((g_isdata && g_k == CUR_) ==> (h_s0 == 0 && 8 * g_d + g_j == h_G0 + g_bit && ((in >> (7 - g_bit)) & 1) == g_cell)) \
+  __CPROVER_loop_invariant((g_isdata && g_k == CUR_ && (int)g_bit < bitnum) ==> LOC_D(g_cell)) \
+  __CPROVER_loop_invariant(CARRIED_ ==> ((size_t)g_got0 <= h_G0 && LOC_0(PARTIAL_BIT(g_out0, g_got0, g_c)))) \
   __CPROVER_decreases(8 - bitnum)
 #define COPY_HFE_LOOP_CONTRACT \
-  __CPROVER_assigns(begin, got_bits, out, this_op, DST, g_diag, __CPROVER_object_whole(h_out)) \
-  __CPROVER_loop_invariant(__CPROVER_same_object(begin, end) && __CPROVER_same_object(begin, h_block) && __CPROVER_POINTER_OFFSET(begin) <= __CPROVER_POINTER_OFFSET(end) && \
-                           got_bits == 0 && out == 0 && g_exc == EXC_NONE && \
-                           this_op == h_op[__CPROVER_POINTER_OFFSET(begin)] && DST.n == h_cnt[__CPROVER_POINTER_OFFSET(begin)] && DST.n <= __CPROVER_POINTER_OFFSET(begin)) \
-  __CPROVER_loop_invariant((!hfe3 && g_k < DST.n) ==> (((DST.at_k >> g_bit) & 1) == ((h_block[g_k] >> (7 - g_bit)) & 1))) \
-  __CPROVER_decreases(__CPROVER_POINTER_OFFSET(end) - __CPROVER_POINTER_OFFSET(begin))
+  __CPROVER_assigns(begin, got_bits, out, this_op, DST, g_diag, h_s0, h_G0) \
+  __CPROVER_loop_invariant(__CPROVER_same_object(begin, end) && __CPROVER_same_object(begin, h_block) && OFF_ <= __CPROVER_POINTER_OFFSET(end)) \
+  __CPROVER_loop_invariant(0 <= got_bits && got_bits < 8 && g_exc == EXC_NONE && DST.n <= OFF_ + 1) \
+  __CPROVER_loop_invariant(this_op == h_op[OFF_] && TOTAL_ == h_bits[OFF_]) \
+  __CPROVER_loop_invariant((g_isdata && g_k < OFF_) ==> (8 * g_d + g_j < TOTAL_ && LOC_D(g_cell))) \
+  __CPROVER_loop_invariant(CARRIED_ ==> ((size_t)g_got0 <= TOTAL_ && LOC_0(PARTIAL_BIT(g_out0, g_got0, g_c)))) \
+  __CPROVER_decreases(__CPROVER_POINTER_OFFSET(end) - OFF_)
 #include "copy_hfe.inc"
 
 static bool is_hfe3_opcode(byte val)
 __CPROVER_assigns() __CPROVER_ensures(__CPROVER_return_value == ((val & 0xF0) == 0xF0));
 
-static void copy_hfe(bool hfe3, const byte *begin, const byte *end)
+static void copy_hfe(bool hfe3, const byte *begin, const byte *end, struct HfeCopyState *state)
 __CPROVER_requires(begin == h_block && end >= begin && end <= h_block + BLOCK_MAX && g_exc == EXC_NONE && !g_exc_by_pointer && DST.n == 0)
-__CPROVER_requires(h_cnt[0] == 0 && h_op[0] == 0)          /* the tables were filled for this (hfe3, block) by the harness */
-__CPROVER_assigns(DST, g_diag, g_exc, g_exc_by_pointer, __CPROVER_object_whole(h_out))
-/* v1: one output byte per input byte, in order, bit g_bit of output k being bit 7-g_bit of input k; no exception */
-__CPROVER_ensures(!hfe3 ==> (g_exc == EXC_NONE && DST.n == (size_t)(end - begin)))
-__CPROVER_ensures((!hfe3 && g_k < (size_t)(end - begin)) ==> (((DST.at_k >> g_bit) & 1) == ((h_block[g_k] >> (7 - g_bit)) & 1)))
-/* v3 with NOP / SETINDEX / SETBITRATE opcodes: exactly the data bytes are emitted (opcodes and operands emit nothing);
-   a block that ends inside an opcode raises (by value) */
-__CPROVER_ensures(DST.n == h_cnt[end - begin] && !g_exc_by_pointer)
-__CPROVER_ensures((g_exc == EXC_NONE) == (h_op[end - begin] == 0));
+__CPROVER_requires(state == &h_state && 0 <= state->got_bits && state->got_bits < 8)
+/* the tables were filled for this (hfe3, block, state on entry) by the harness */
+__CPROVER_requires(h_op[0] == state->this_op && h_bits[0] == (size_t)state->got_bits && g_got0 == state->got_bits && g_out0 == state->out)
+/* where the automaton puts cell g_bit of byte g_k: output cell number h_bits[g_k] + g_bit = 8 g_d + g_j */
+__CPROVER_requires(g_k < BLOCK_MAX && g_bit < 8 && g_j < 8 && g_c < 8 && 8 * g_d + g_j == h_bits[g_k] + g_bit && g_cell == ((h_block[g_k] >> (7 - g_bit)) & 1))
+__CPROVER_requires(g_isdata ==> (g_k < (size_t)(end - begin) && h_op[g_k] == 0 && !(hfe3 && h_block[g_k] >= 0xF0)))
+__CPROVER_assigns(DST, g_diag, g_exc, g_exc_by_pointer, h_state, h_s0, h_G0)
+/* no placement of the opcodes makes the block unreadable, and the state left behind is the automaton's: the opcode still
+   waiting for its operand (which is then the first byte of the next block of this side) and the cells of the unfinished
+   output byte */
+__CPROVER_ensures(g_exc == EXC_NONE && !g_exc_by_pointer)
+__CPROVER_ensures(state->this_op == h_op[end - begin] && 0 <= state->got_bits && state->got_bits < 8)
+/* every cell is accounted for: 8 per appended byte plus those waiting in the state */
+__CPROVER_ensures(8 * DST.n + (size_t)state->got_bits == h_bits[end - begin])
+/* cell g_bit of data byte g_k is in the output at the position the automaton gives it: in an appended byte, or in the
+   unfinished byte left in the state */
+__CPROVER_ensures((g_isdata && g_k < (size_t)(end - begin) && g_d < DST.n) ==> (((DST.at_d >> g_j) & 1) == g_cell))
+__CPROVER_ensures((g_isdata && g_k < (size_t)(end - begin) && g_d == DST.n) ==> (PARTIAL_BIT(state->out, state->got_bits, g_j) == g_cell))
+/* the cells gathered before this block are kept: they open the first appended byte (or still wait in the state) */
+__CPROVER_ensures(((int)g_c < g_got0 && DST.n >= 1) ==> (((DST.at_0 >> g_c) & 1) == PARTIAL_BIT(g_out0, g_got0, g_c)))
+__CPROVER_ensures(((int)g_c < g_got0 && DST.n == 0) ==> (PARTIAL_BIT(state->out, state->got_bits, g_c) == PARTIAL_BIT(g_out0, g_got0, g_c)));
 
 void h_is_opcode(void) { is_hfe3_opcode(nondet_uchar()); }
+
+static void h_setup(_Bool hfe3, size_t n)
+{
+  size_t P;
+  g_k = nondet_size_t(); g_bit = nondet_uint(); g_c = nondet_uint();
+  __CPROVER_assume(g_k < BLOCK_MAX && g_bit < 8 && g_c < 8);
+  g_exc = EXC_NONE; g_exc_by_pointer = 0; DST.n = 0;
+  /* the state on entry: anything a previous block can have left behind (v1: no opcode is ever pending) */
+  __CPROVER_assume(0 <= h_state.got_bits && h_state.got_bits < 8);
+  __CPROVER_assume(hfe3 ? (h_state.this_op == 0 || (h_state.this_op >= 0xF2 && h_state.this_op <= 0xF4)) : h_state.this_op == 0);
+  h_op[0] = h_state.this_op; h_bits[0] = (size_t)h_state.got_bits; g_got0 = h_state.got_bits; g_out0 = h_state.out;
+  h_fill_tables(hfe3, n);
+  g_isdata = g_k < n && h_op[g_k] == 0 && !(hfe3 && h_block[g_k] >= 0xF0);
+  g_cell = (h_block[g_k] >> (7 - g_bit)) & 1;
+  P = h_bits[g_k] + g_bit;
+  g_d = P / 8; g_j = (unsigned)(P % 8);
+}
 void h_copy_hfe(void)
 {
   size_t n = nondet_size_t();
   __CPROVER_assume(n <= BLOCK_MAX);
-  g_k = nondet_size_t(); g_bit = nondet_uint(); __CPROVER_assume(g_bit < 8);
-  g_exc = EXC_NONE; g_exc_by_pointer = 0; DST.n = 0;
-  h_fill_tables(0, n);
-  copy_hfe(0, h_block, h_block + n);
-  VERIF_COVER(DST.n == 256, "a whole 256-byte block copied");
+  h_setup(0, n);
+  copy_hfe(0, h_block, h_block + n, &h_state);
+  VERIF_COVER(DST.n == 256 && h_state.got_bits == 0, "a whole 256-byte block copied");
 }
 void h_copy_hfe3(void)
 {
   size_t n = nondet_size_t();
   __CPROVER_assume(n <= BLOCK_MAX);
-  g_k = nondet_size_t(); g_bit = nondet_uint(); __CPROVER_assume(g_bit < 8);
-  g_exc = EXC_NONE; g_exc_by_pointer = 0; DST.n = 0;
-  h_fill_tables(1, n);
-  copy_hfe(1, h_block, h_block + n);
-  VERIF_COVER(g_exc == EXC_NONE && DST.n + 3 == n && n > 10, "a block with a SETBITRATE and a NOP");
-  VERIF_COVER(g_exc != EXC_NONE, "block ends inside an opcode");
+  h_setup(1, n);
+  copy_hfe(1, h_block, h_block + n, &h_state);
+  VERIF_COVER(DST.n + 3 == n && n > 10 && g_got0 == 0 && h_state.got_bits == 0, "a block with a SETBITRATE and a NOP");
+  VERIF_COVER(h_state.this_op == 0xF2, "block ends inside a SETBITRATE: its operand opens the next block");
+  VERIF_COVER(g_got0 == 0 && h_state.got_bits == 5 && n > 20, "a SKIPBITS 3: the cells after it are still copied");
 }
